@@ -128,7 +128,7 @@ def contracts():
                     }
                 }""")],
         ),
-        "block_until_allowed": FnSpec(ghost=True, attrs="#[verifier::exec_allows_no_decreases_clause]", sig="""
+        "block_until_allowed": FnSpec(ghost=True, shape_free=True, attrs="#[verifier::exec_allows_no_decreases_clause]", sig="""
     requires old(self).inv(*old(w)),
     ensures final(self).inv(*final(w)), //@C09.inv
             final(w).clock >= old(w).clock, //@C09.clock
